@@ -413,6 +413,47 @@ def run(ctx: Ctx, rs: RuleSet, tier: str):
       isinstance(e, ast.Call) and unparse(e.func) == 'delattr'
       for e in cfg_lib.walk_node(g, n))]
   from fdlstatic import dispatch
+  # two phases - the names are collected first (under the guard) and removed
+  # afterwards, `for name in collect(value, state): delattr(value, name)`:
+  # the guard obligations are then about where a name is collected
+  def _collected_where(f0, g0, dels0):
+    for d in dels0:
+      calls_ = [e for e in cfg_lib.walk_node(g0, d) if isinstance(
+          e, ast.Call) and unparse(e.func) == 'delattr' and len(e.args) == 2]
+      if not calls_ or not isinstance(calls_[0].args[1], ast.Name):
+        return None
+      nm = calls_[0].args[1].id
+      loops_ = [L for L in walk_function(f0.node) if isinstance(
+          L, ast.For) and isinstance(L.target, ast.Name) and
+                L.target.id == nm and any(x is calls_[0] for x in ast.walk(L))]
+      if len(loops_) != 1:
+        return None
+      src = roles.deref(f0, loops_[0].iter)
+      if not isinstance(src, ast.Call):
+        return None
+      h = ctx.p.funcs.get(ctx.p.resolve(src.func, f0) or '')
+      if h is None or h.is_lambda:
+        return None
+      rets = [r for r in walk_function(h.node) if isinstance(r, ast.Return)]
+      if len(rets) != 1 or not isinstance(rets[0].value, ast.Name):
+        return None
+      acc = rets[0].value.id
+      gh = ctx.cfg(h)
+      sites = [n for n in gh.nodes() if any(
+          isinstance(e, ast.Call) and isinstance(e.func, ast.Attribute) and
+          e.func.attr == 'append' and unparse(e.func.value) == acc
+          for e in cfg_lib.walk_node(gh, n))]
+      inits = [n for n in walk_function(h.node) if isinstance(
+          n, ast.Assign) and unparse(n.targets[0]) == acc]
+      if not sites or len(inits) != 1 or not (isinstance(
+          inits[0].value, ast.List) and not inits[0].value.elts):
+        return None
+      return h, gh, sites
+    return None
+
+  moved = _collected_where(f, g, dels) if dels else None
+  if moved is not None:
+    f, g, dels = moved
   # <default of the parameter> == <the argument's value>, the value being
   # the loop variable over value.__arguments__.items()
   vals = {unparse(L.target.elts[1]) for L in walk_function(f.node)
